@@ -97,3 +97,26 @@ def foreign_tasks(tier, prefix, kinds):
                                  'all objects, then end of file' % (nobj, cs, lo, hi if r < nranges else 'end'),
                             reach=('h_foreign:end',), bounds='%d objects; preemption bound 1' % nobj, kinds=kinds))
     return out
+
+
+def unknown_tasks(tier, prefix, kinds):
+    """read session over a file with an unknown object that spans two containers and carries an object image in its body,
+    every schedule with one preemption (decoder ahead of / behind the inflater at the moment of the skip)"""
+    import c09
+    fsrc = c09.file_source()
+    out = []
+    width = 64
+    nranges = 6 if tier == 'quick' else 12
+    for cut, scaled in (((60, 0),) if tier == 'quick' else ((60, 0), (60, 1), (30, 0))):
+        for r in range(nranges + 1):
+            lo = r * width
+            hi = (r + 1) * width if r < nranges else 10 ** 9
+            out.append(Task('%s_unknown.cut%d%s.sync%d-%s' % (prefix, cut, '_scaled' if scaled else '', lo, hi if r < nranges else 'end'),
+                            '#define EMBEDDED_IMAGE 1\n' + ('#define SCALED_STREAM 1\n' if scaled else '') + '#define CUT %d\n' % cut + fsrc, 'h_unknown', None,
+                            opts=dict(validate=False, extra=['zlib_stub.cpp'], limit_is_hang=True, max_steps=12000000, max_wall=1500,
+                                      enum_limit=400, preempt_bound=1, preempt_range=(lo, hi), preempt_in_cs=True, child_first=True),
+                            desc='read session over [CanMessage][unknown object spanning two containers, body contains a CanMessage '
+                                 'image][AppText], child-first base schedule plus one preemption at a synchronisation point %d..%s: '
+                                 'exactly the two known objects, then end of file' % (lo, hi if r < nranges else 'end'),
+                            reach=('h_unknown:end',), bounds='one file shape; preemption bound 1', kinds=kinds))
+    return out
